@@ -29,12 +29,14 @@ type c03Scenario struct {
 	CmdDelay time.Duration   `json:"cmd_hook_delay"`
 	ReqDs    []time.Duration `json:"req_delays"`
 	ProbeIv  time.Duration   `json:"probe_interval"`
+	Buf      string          `json:"buffering"` // "" | req | resp | both: the service buffers requests and/or responses
 }
 
 func c03Gen(rng *rand.Rand, idx int) c03Scenario {
 	sc := c03Scenario{Idx: idx, Cmd: pick(rng, []string{"deploy", "pause", "stop", "pause", "deploy", "rollout-deploy"}), NT: 1 + rng.IntN(3), ProbeIv: time.Second}
 	sc.DrainTO = pick(rng, []time.Duration{0, time.Millisecond, 1500 * time.Millisecond, 1500 * time.Millisecond, 30 * time.Second})
 	sc.Rollout = sc.Cmd == "rollout-deploy" || rng.IntN(4) == 0
+	sc.Buf = pick(rng, []string{"", "", "", "req", "resp", "both"})
 	if rng.IntN(3) == 0 {
 		sc.Placed = true
 		sc.DrainTO = pick(rng, []time.Duration{1500 * time.Millisecond, 30 * time.Second})
@@ -87,7 +89,7 @@ func (sc c03Scenario) class() string {
 	if len(ks) == 0 && !sc.Placed {
 		return ""
 	}
-	return fmt.Sprintf("%s|nt%d|ro%v|drain%v|%s|placed=%v|sick=%v", sc.Cmd, sc.NT, sc.Rollout, sc.DrainTO, strings.Join(ks, ","), sc.Placed, sc.Sick)
+	return fmt.Sprintf("%s|nt%d|ro%v|drain%v|%s|placed=%v|sick=%v|buf=%s", sc.Cmd, sc.NT, sc.Rollout, sc.DrainTO, strings.Join(ks, ","), sc.Placed, sc.Sick, sc.Buf)
 }
 
 // c03Span: requests held by a pause (and requests stalled between route lookup and claim) while
@@ -192,6 +194,8 @@ func c03Run(t *testing.T, run *Run, sc c03Scenario) {
 	to := DefTO
 	to.HealthCheckConfig.Interval = sc.ProbeIv
 	to.ResponseTimeout = 5 * time.Minute // the target timeout must not pre-empt the drain deadline
+	to.BufferRequests = sc.Buf == "req" || sc.Buf == "both"
+	to.BufferResponses = sc.Buf == "resp" || sc.Buf == "both"
 	const svc = "svc"
 	mk := func(tag string, n int) []string {
 		var out []string
